@@ -11,7 +11,7 @@ package config
 //@ pure func skipFile(c *Config, pass *analysis.Pass, f *ast.File) bool = (exists i int :: 0 <= i && i < len(c.ExcludePaths) && strings.Contains(fileName(pass, f), c.ExcludePaths[i])) || (!c.ScanTests && strings.HasSuffix(fileName(pass, f), "_test.go"))
 
 //@ func Config.ShouldSkipFile
-//@   props C14 C10
+//@   props C14 C10 C17 C06
 //@   requires pass != nil && file != nil
 //@   ensures result == skipFile(c, pass, file)
 //@   assigns nothing
@@ -19,7 +19,7 @@ package config
 
 // FilterFiles yields exactly the files of the pass that are not skipped, in the order of pass.Files
 //@ func Config.FilterFiles
-//@   props C14 C10 C01 C02 C03 C04 C07 C09
+//@   props C14 C10 C01 C02 C03 C04 C07 C09 C17 C06
 //@   ensures forall k int :: 0 <= k && k < len(result) ==> result[k] != nil && !skipFile(c, pass, result[k]) && contains(pass.Files, result[k])
 //@   ensures forall i int :: 0 <= i && i < len(pass.Files) && !skipFile(c, pass, pass.Files[i]) ==> contains(result, pass.Files[i])
 //@   assigns nothing
